@@ -35,6 +35,8 @@ inductive SOp
   | acc (f : Nat) (p : Nat)                  -- acceptor::async_accept
   | readAll (f n p : Nat)                    -- stream_socket::async_read of n bytes
   | writeBig (f p : Nat)                     -- stream_socket::async_write of far more than the socket buffer takes
+  | readSome (f p : Nat)                     -- stream_socket::async_read_some (1 byte buffer) on an open socket
+  | nonOwnerClose (f : Nat)                  -- release(); close(): cancels the waits, the descriptor stays open
   | rawClose (f : Nat)               -- ::close(fd) by the application, then cancel_io_events(fd)
   | reopen (f : Nat)                 -- a new socket pair whose descriptor gets the number device f had
   | bad
@@ -47,6 +49,7 @@ structure Sock where
   gen : Nat := 0         -- incremented whenever the descriptor behind the device changes (closed, re-opened)
   kind : Nat := 0        -- 0 socket of a socketpair, 1 read end of a pipe, 2 write end of a pipe, 3 TCP connector, 5 acceptor
   conn : Nat := 0        -- connector: 1 connect in progress (SYNs dropped), 2 connected
+  nonowner : Bool := false  -- release()d: close() cancels but neither closes nor forgets the descriptor
   wfull : Bool := false  -- the peer never reads and the send buffer is full: not writable any more
   peer : Nat := 0        -- device index of the other end (pipes)
   deriving Inhabited
@@ -117,6 +120,7 @@ def parseSOp (w : String) : SOp :=
   | ["rs"] => .reset
   | ["xp", f, p] => match f.toNat?, p.toNat? with | some f, some p => .conn f false p | _, _ => .bad
   | ["xg", f, p] => match f.toNat?, p.toNat? with | some f, some p => .conn f true p | _, _ => .bad
+  | ["xs", f, p] => match f.toNat?, p.toNat? with | some f, some p => .readSome f p | _, _ => .bad
   | ["xq", f, p] => match f.toNat?, p.toNat? with | some f, some p => .acc f p | _, _ => .bad
   | ["xW", f, p] => match f.toNat?, p.toNat? with | some f, some p => .writeBig f p | _, _ => .bad
   | [op, f, p] =>
@@ -126,6 +130,7 @@ def parseSOp (w : String) : SOp :=
       | none => .bad
     else .bad
   | ["xR", f, n, p] => match f.toNat?, n.toNat?, p.toNat? with | some f, some n, some p => .readAll f n p | _, _, _ => .bad
+  | ["nc", f] => match f.toNat? with | some f => .nonOwnerClose f | none => .bad
   | ["rx", f] => match f.toNat? with | some f => .rawClose f | none => .bad
   | ["ro", f] => match f.toNat? with | some f => .reopen f | none => .bad
   | _ => .bad
@@ -214,7 +219,12 @@ def doOp (d : D) : SOp → D
     else d
   | .ca f => { d with st := opStep d.st (.cancelIo (sockFd d (some f))) }
   | .cl f =>
-    -- basic_io_device::close(): cancel(), then close the descriptor, fd_ = invalid_socket
+    -- basic_io_device::close(): cancel(), then (if it owns it) close the descriptor, fd_ = invalid_socket
+    if (d.socks.getD f {}).nonowner then
+      (match sockFd d (some f) with
+       | some fd => { d with st := opStep d.st (.cancelIo (some fd)) }
+       | none => d)
+    else
     match sockFd d (some f) with
     | some fd => { d with st := opStep d.st (.cancelIo (some fd)),
                           socks := d.socks.set f (closedSock (d.socks.getD f {}) d.started) }
@@ -254,6 +264,22 @@ def doOp (d : D) : SOp → D
         let d := { d with socks := d.socks.set f { sk with pending := sk.pending - take } }
         if take == n then noteIssue { d with st := opStep d.st (.postEv .ok n) } d.st.next p none 0 none (some "i")
         else noteIssue { d with st := opStep d.st (.setIo (some fd) .rd true .sysErr) } d.st.next p none sk.gen none (some "i") 3 (n - take) f
+    else { d with bad := true }
+  | .nonOwnerClose f =>
+    -- basic_io_device::close() on a device that does not own its descriptor: `if(has_io_service()) cancel();` and
+    -- then `if(!owner_) return;` - the waits are cancelled, nothing is closed, fd_ keeps its value
+    match sockFd d (some f) with
+    | some fd => { d with st := opStep d.st (.cancelIo (some fd)), socks := d.socks.set f { (d.socks.getD f {}) with nonowner := true } }
+    | none => d
+  | .readSome f p =>
+    let sk := d.socks.getD f {}
+    if f < d.socks.length && sk.kind == 0 then
+      match sockFd d (some f) with
+      | none => noteIssue { d with st := opStep d.st (.postEv .badf 0) } d.st.next p none 0 none (some "i")
+      | some fd =>
+        if sk.pending > 0 then
+          noteIssue { d with socks := d.socks.set f { sk with pending := sk.pending - 1 }, st := opStep d.st (.postEv .ok 1) } d.st.next p none 0 none (some "i")
+        else noteIssue { d with st := opStep d.st (.setIo (some fd) .rd true .sysErr) } d.st.next p none sk.gen none (some "i") 4 0 f
     else { d with bad := true }
   | .writeBig f p =>
     let sk := d.socks.getD f {}
@@ -315,6 +341,14 @@ def settle : Nat → D → D
                 let before := d.st.next
                 let d := { d with st := opStep d.st (.setIo (sockFd d (some fd)) .rd true .sysErr) }
                 (false, noteIssue d before (d.hprog.getD t.id 0) none sk.gen (some (uidOf d t.id)) none 3 (rem - take) fd)
+          | 4 =>   -- reader_some: error -> h(e,0); read_some; nothing there and would-block (spurious readiness: somebody
+                   -- else consumed the data) -> on_readable again; else h(err,n)
+            if code != .ok then (true, d)
+            else if sk.pending > 0 then (true, { d with socks := d.socks.set fd { sk with pending := sk.pending - 1 } })
+            else
+              let before := d.st.next
+              let d := { d with st := opStep d.st (.setIo (sockFd d (some fd)) .rd true .sysErr) }
+              (false, noteIssue d before (d.hprog.getD t.id 0) none sk.gen (some (uidOf d t.id)) none 4 0 fd)
           | _ => (true, d)     -- plain handlers; async_connector: every path calls h exactly once
         let d := { d with execAt := d.execAt ++ [d.now], logVis := d.logVis ++ [vis] }
         if !vis then settle fuel d else
